@@ -38,13 +38,17 @@ func buildRequestS() *signature.SignRequest {
 	thePayloadBytes = rt.Atom("payload")
 	req.Payload = signature.Payload{ContentType: rt.AtomString("cty"), Content: thePayloadBytes}
 	req.SigningTime, req.Expiry = rt.Time("signingTime"), rt.Time("expiry")
+	if zonesModelS {
+		zoneOffST, zoneOffExp = rt.Int("signingTime.zone.offset"), rt.Int("expiry.zone.offset")
+		rt.Assume(zoneOffST > -200000 && zoneOffST < 200000 && zoneOffExp > -200000 && zoneOffExp < 200000)
+	}
 	req.SigningScheme = signature.SigningScheme(rt.AtomString("scheme"))
 	req.SigningAgent = rt.AtomString("agent")
 	maxAttrs := rt.Bound("attributes_max", 2, 2)
 	if focusS >= 2 {
 		maxAttrs = 1
 	}
-	if focusS == 4 { // a plain request without attributes (first step of the C20 sequence)
+	if focusS == 4 || focusS == 5 { // a plain request without attributes (first step of the C20 sequence; zones)
 		maxAttrs = 0
 	}
 	n := rt.Choose("attrs", 1+maxAttrs)
@@ -63,7 +67,7 @@ func buildRequestS() *signature.SignRequest {
 			}
 		}
 	}
-	if focusS == 1 || focusS == 3 || focusS == 4 {
+	if focusS == 1 || focusS == 3 || focusS == 4 || focusS == 5 {
 		wellBehavedS, lateFaultsS = true, focusS == 3
 		signerKindS = 1
 		req.Signer = envRemoteS{}
@@ -122,6 +126,7 @@ func jwsRowOfKeySpec() int {
 
 func signJWS() {
 	req := buildRequestS()
+	theReqS = req
 	st0, exp0 := req.SigningTime, req.Expiry
 	e := NewEnvelope().(*base.Envelope)
 	var out []byte
@@ -165,10 +170,13 @@ func signJWS() {
 		inv = rt.Or(inv, payloadKind != 0) // the payload is not (just) a JSON object
 	}
 	rt.AssertKnown(rt.Implies(inv, err != nil), "C16.jws.invalid.request.rejected", "F8", payloadKind == 1)
-	if focusS == 1 {
+	if focusS == 1 || focusS == 5 {
 		// with an environment that does not fail, every valid request is signed (open: an attribute key that differs from
 		// a specified header only in letter case may be refused)
-		rt.Assert(rt.Implies(err != nil, rt.Or(inv, foldIdxS >= 0)), "C08.jws.valid.request.succeeds")
+		// ... and a time that RFC 3339 cannot write (local year outside 0..9999, zone hour above 23) may be refused
+		// (the known condition of F13 - a zone offset with seconds - is listed so that the check says which class it is
+		// should the repair ever be taken out: the shifted instants make the self-check of Sign fail)
+		rt.AssertKnown(rt.Implies(err != nil, rt.Or(inv, foldIdxS >= 0 || encodingRefusedS)), "C08.jws.valid.request.succeeds", "F13", zonesModelS && rt.Or(zoneOffST%60 != 0, zoneOffExp%60 != 0))
 	}
 	// ---- C15.L3
 	wantTS := rt.And(isX509, req.Timestamper != nil)
@@ -209,8 +217,14 @@ func signJWS() {
 	rt.AssertKnown(rt.Or(useNumber, numbersExact), "C08.jws.payload.numbers.exact", "F4", rt.Not(numbersExact))
 	rt.Assert(rt.StrEq(c.Payload.ContentType, req.Payload.ContentType), "C08.jws.content.type")
 	rt.Assert(rt.StrEq(string(c.SignerInfo.SignedAttributes.SigningScheme), string(req.SigningScheme)), "C08.jws.scheme")
-	rt.Assert(c.SignerInfo.SignedAttributes.SigningTime.Equal(st), "C08.jws.signing.time.truncated")
-	rt.Assert(c.SignerInfo.SignedAttributes.Expiry.Equal(exp), "C08.jws.expiry.truncated")
+	if zonesModelS {
+		// known finding F13: a zone offset with a seconds part moves the instant by that many seconds
+		rt.AssertKnown(c.SignerInfo.SignedAttributes.SigningTime.Equal(st), "C08.jws.signing.time.truncated.any.zone", "F13", zoneOffST%60 != 0)
+		rt.AssertKnown(rt.Or(exp.IsZero(), c.SignerInfo.SignedAttributes.Expiry.Equal(exp)), "C08.jws.expiry.truncated.any.zone", "F13", zoneOffExp%60 != 0)
+	} else {
+		rt.Assert(c.SignerInfo.SignedAttributes.SigningTime.Equal(st), "C08.jws.signing.time.truncated")
+		rt.Assert(c.SignerInfo.SignedAttributes.Expiry.Equal(exp), "C08.jws.expiry.truncated")
+	}
 	rt.Assert(int(c.SignerInfo.SignatureAlgorithm) == row && row != 0, "C08.jws.algorithm.of.signer")
 	rt.Assert(len(signLogS) == 1 && rt.BytesEq(c.SignerInfo.Signature, signLogS[0].sig), "C08.jws.signature.of.signer")
 	rt.Assert(rt.StrEq(c.SignerInfo.UnsignedAttributes.SigningAgent, req.SigningAgent), "C08.jws.agent")
